@@ -48,7 +48,7 @@ def _iter_filter(prop, scripts):
         keep = ("top-", "big-", "mag-")
         return [s for s in scripts if s[0].startswith(keep)]
     if prop == "C01":
-        keep = ("small-fwd", "small-long-fwd", "mag-fwd", "big-fwd", "past-hint", "top-", "seam-fwd", "fwd-")
+        keep = ("small-fwd", "small-long-fwd", "mag-fwd", "big-fwd", "past-hint", "top-", "seam-fwd", "fwd-", "corpus-")
     elif prop == "C02":
         keep = ("small-bwd", "to-zero", "mag-bwd", "big-bwd", "past-hint-bwd", "seam-bwd", "top-bwd", "bwd-")
     else:
@@ -304,16 +304,21 @@ REGISTRY = {
                   ("PsProps.C01", "Ps.Props.C01_first_multiple"), ("PsProps.C01", "Ps.Props.C01_presieve_exact"),
                   ("PsProps.C01", "Ps.Props.C01_wheel_source"), ("PsProps.C01", "Ps.Props.C01_sieve_principle"),
                   ("PsProps.C01", "Ps.Props.C01_crossoff_covers_segment"), ("PsProps.C01", "Ps.Props.C01_segments_tile"), ("PsProps.C01", "Ps.Props.C01_segment_numbers_correct"),
-                  ("PsProps.C01", "Ps.Props.C01_segment_source")],
+                  ("PsProps.C01", "Ps.Props.C01_segment_source"), ("PsProps.C01", "Ps.Props.C01_feed_complete"),
+                  ("PsProps.C01", "Ps.Props.C01_loop_segments_correct"), ("PsProps.C01", "Ps.Props.C01_tiny_feed"),
+                  ("PsProps.C01", "Ps.Props.C01_feed_source")],
         tie=combine(("iter", iter_tie), ("segment", segment_tie), ("wheel", streams.WHEEL.tie), ("cross", streams.CROSS.tie),
                     ("presieve", streams.PRESIEVE.tie)),
         witness=combine_witness(iter_witness, streams.WHEEL.witness, streams.CROSS.witness, streams.PRESIEVE.witness, segment_witness), assumptions=ITER_ASSUME,
         undischarged=["IGen ~ PrimeGenerator: the wheel layer (tables, step, walk, first multiple) and the pre-sieve (16 tables, AND) of the "
                       "sieve chain, the sieve principle, their composition (a number of a segment is prime iff pre-sieved bit set and "
-                      "not crossed off by a stored sieving prime's walk) and the tiling of [start, stop] by segments are proved; what "
-                      "remains is scheduling: that EratSmall (L1 sub-segments) / EratMedium (bucket lists) / EratBig (segment rotation, "
-                      "MemoryPool) perform exactly these walks in every segment and that SievingPrimes / tinySieve hand every prime "
-                      "<= sqrt(segmentHigh) to addSievingPrime in time - tied by the segment and cross streams only"],
+                      "not crossed off by a stored sieving prime's walk), the tiling of [start, stop] by segments and the feed loops (every "
+                      "source value <= isqrt(segmentHigh) is added before the segment is sieved; C01_loop_segments_correct composes all "
+                      "of them over the whole segment loop) are proved; what remains is (a) scheduling: that EratSmall (L1 "
+                      "sub-segments) / EratMedium (bucket lists) / EratBig (segment rotation, MemoryPool) perform exactly these walks "
+                      "in every segment, and (b) that SievingPrimes::next() delivers the primes of (163, isqrt(stop)] in order - a "
+                      "hypothesis of the theorem (it is the same Erat code one level down, fed by tinySieve) - both tied by the "
+                      "segment and cross streams only"],
         explanation="forward iteration = primeSeq for every start, hint, block policy and float oracle; "
                     "termination of generate_next_primes is the well-founded recursion of genNextFresh"),
     "C02": Prop(
@@ -354,7 +359,7 @@ REGISTRY = {
         theorems=[("PsProps.C15", "Ps.Props.C15_model_sources"), ("PsProps.C15", "Ps.Props.C15_print_primes"), ("PsProps.C15", "Ps.Props.C15_lines_eq_count"),
                   ("PsProps.C15", "Ps.Props.C15_print_tuplets_from7"), ("PsProps.C15", "Ps.Props.C15_tuplet_lines_eq_count"),
                   ("PsProps.C15", "Ps.Props.C15_small_strings")],
-        tie=combine(("print", streams.PRINT.tie)), witness=combine_witness(streams.PRINT.witness),
+        tie=combine(("print", streams.PRINT.tie), ("cliprint", lambda ctx, tf: cliprint_tie(ctx, tf))), witness=combine_witness(streams.PRINT.witness),
         assumptions=COUNT_ASSUME + ["iostream's decimal rendering of uint64_t equals Lean's Nat.repr (toString)"],
         undischarged=["ideal sieve ~ Erat cross-off (sieve chain)", "print_twins..sextuplets for start < 7: only the "
                       "table strings are proved (C15_small_strings); the full statement is tied by the print stream"],
@@ -581,6 +586,10 @@ def mem_witness(ctx, obligations_failed, tie_fail):
 def cli_tie(ctx, tie_fail):
     streams.CLI.env = {"PSV_CLI": os.path.join(ctx.repo_build, "primesieve")}
     return streams.CLI.tie(ctx, tie_fail)
+
+def cliprint_tie(ctx, tie_fail):
+    streams.CLIPRINT.env = {"PSV_CLI": os.path.join(ctx.repo_build, "primesieve")}
+    return streams.CLIPRINT.tie(ctx, tie_fail, tag="cliprint")
 
 def cli_witness(ctx, obligations_failed, tie_fail):
     streams.CLI.env = {"PSV_CLI": os.path.join(ctx.repo_build, "primesieve")}
